@@ -52,7 +52,7 @@ ENGINES = {
     "allocsim": {
         "resume": True,
         "tus": [("sim/allocsim/main.cpp", ASAN), ("sim/allocsim/scn_core.cpp", ASAN), ("sim/allocsim/scn_fmt.cpp", ASAN),
-                ("sim/allocsim/scn_query.cpp", ASAN), ("sim/allocsim/scn_schema.cpp", ASAN), ("sim/allocsim/scn_stateful.cpp", ASAN),
+                ("sim/allocsim/scn_query.cpp", ASAN), ("sim/allocsim/scn_schema.cpp", ASAN), ("sim/allocsim/scn_stateful.cpp", ASAN), ("sim/allocsim/scn_typed.cpp", ASAN),
                 ("sim/core/worker.cpp", ASAN), ("sim/core/ledger.cpp", ASAN)],
         "link": ASAN,
     },
@@ -487,7 +487,7 @@ CHECKS = {
     "C10": dict(level="exploration", parts=[("iosim", "c10", 1400, 14000), ("stacksim", "stack", 264, 1056)], cap=(600, 3000), timeout=300),
     "C15": dict(level="fault_enumeration", parts=[("patchsim", "c15", 2400, 120000)], cap=(600, 3000), timeout=120),
     "C20": dict(level="exploration", parts=[("threadsim", "c20", 2400, 80000)], cap=(600, 3000), timeout=60),
-    "C19": dict(level="fault_enumeration", parts=[("allocsim", "all", 1083 + 70 * 80, 1083 + 70 * 1500)], cap=(600, 3000), timeout=120),
+    "C19": dict(level="fault_enumeration", parts=[("allocsim", "all", 1083 + 80 * 80, 1083 + 80 * 1500)], cap=(600, 3000), timeout=120),
 }
 
 def write_evidence(cid, tier, seed, level, coverage, assumptions, wall, violations):
